@@ -24,42 +24,59 @@ Fixpoint next_sq (l : list nat) : option (list nat * nat * list nat) :=
   | c :: l' => if (c =? c_lb) || (c =? c_rb) then Some ([], c, l')
                else match next_sq l' with Some (b, x, a) => Some (c :: b, x, a) | None => None end
   end.
-(* plain members ending in a "-" that waits for the end point of its range *)
-Fixpoint open_range (has_start : bool) (l : list nat) : bool :=
+(* where a scan of the members stands with respect to ranges: nothing a range could start from; a member one could start from;
+   a "-" waiting for its end point; a range just completed (a "-" here can only be the last member) *)
+Inductive rstate := RNo | RStart | ROpen | RDone.
+Definition rstate_eqb (a b : rstate) : bool :=
+  match a, b with RNo, RNo | RStart, RStart | ROpen, ROpen | RDone, RDone => true | _, _ => false end.
+(* plain members read from a state; [last]: the closing "]" follows them.  None: a "-" behind a complete range that is not the
+   last member *)
+Fixpoint scan_members (l : list nat) (st : rstate) (last : bool) : option rstate :=
   match l with
-  | [] => false
-  | c :: l' => if (c =? c_minus) && has_start then match l' with [] => true | _ :: l'' => open_range false l'' end
-               else open_range true l'
+  | [] => Some st
+  | c :: l' =>
+      match st with
+      | ROpen => scan_members l' RDone last
+      | RDone => if c =? c_minus then (match l' with [] => if last then Some RStart else None | _ :: _ => None end)
+                 else scan_members l' RStart last
+      | RStart => if c =? c_minus then scan_members l' ROpen last else scan_members l' RStart last
+      | RNo => scan_members l' RStart last
+      end
   end.
 Definition dash_with_end (l : list nat) : bool :=
   match l with c :: r :: _ => (c =? c_minus) && negb (r =? c_rb) | [c] => c =? c_minus | [] => false end.
 
 (* from inside a bracket expression: Some rest - it is closed and [rest] follows; None - refused *)
-Fixpoint members_ok (fuel : nat) (cls first : bool) (m : list nat) : option (list nat) :=
+Fixpoint members_ok (fuel : nat) (cls : bool) (st : rstate) (m : list nat) : option (list nat) :=
   match fuel with
   | 0 => None
   | S f =>
     match next_sq m with
     | None => None                                             (* never closed *)
     | Some (before, c, after) =>
-        if c =? c_rb then Some after
-        else match after with
+        if c =? c_rb then (match scan_members before st true with Some _ => Some after | None => None end)
+        else
+        match scan_members before st false with
+        | None => None
+        | Some st1 =>
+             match after with
              | d :: inner =>
                  if cls && (d =? c_colon) then
                    match find_close c_colon inner with
-                   | Some (name, rest) => if existsb (w_eqb name) regex_class_names then members_ok f cls false rest else None
+                   | Some (name, rest) => if existsb (w_eqb name) regex_class_names then members_ok f cls RNo rest else None
                    | None => None
                    end
                  else if (d =? c_dot) || (d =? c_eq) then
                    match find_close d inner with
                    | Some ([_], rest) =>
-                       if (d =? c_eq) && (open_range (negb first) before || dash_with_end rest) then None
-                       else members_ok f cls false rest
+                       if (d =? c_eq) && (rstate_eqb st1 ROpen || dash_with_end rest) then None
+                       else members_ok f cls (if d =? c_eq then RNo else if rstate_eqb st1 ROpen then RDone else RStart) rest
                    | _ => None
                    end
-                 else members_ok f cls false after
-             | [] => members_ok f cls false after
+                 else (match scan_members [c_lb] st1 false with Some st2 => members_ok f cls st2 after | None => None end)
+             | [] => (match scan_members [c_lb] st1 false with Some st2 => members_ok f cls st2 after | None => None end)
              end
+        end
     end
   end.
 
@@ -73,9 +90,9 @@ Fixpoint classes_scan (fuel : nat) (cls : bool) (s : list nat) : bool :=
         if c =? c_bs then classes_scan f cls (tl s')
         else if c =? c_lb then
           let m1 := match s' with x :: r => if x =? c_caret then r else s' | [] => s' end in
-          let first := match m1 with x :: _ => negb (x =? c_rb) | [] => true end in
+          let st := match m1 with x :: _ => if x =? c_rb then RStart else RNo | [] => RNo end in
           let m2 := match m1 with x :: r => if x =? c_rb then r else m1 | [] => m1 end in
-          match members_ok (S (length m2)) cls first m2 with
+          match members_ok (S (length m2)) cls st m2 with
           | Some rest => classes_scan f cls rest
           | None => false
           end
